@@ -164,4 +164,8 @@ def generate(lean_dir: str):
     out.append("\nend PdfVerif.Gen.Lenient\n")
     path = os.path.join(lean_dir, "PdfVerif", "Gen", "Lenient.lean")
     P.write_if_changed(path, "".join(out))
-    return [path]
+    # round 6: the decoder theorems of Props/C13.lean (C13_bound_*, C13_family_stream_decode) are stated over C03's
+    # model and its regenerated tables (Gen/Filters.lean: _DECODE_ERRORS, filter names, paeth_predictor): regenerate
+    # them on every C13 run too, so that an edit of pdftypes._DECODE_ERRORS breaks those proofs here as well.
+    from . import gen_c03
+    return [path] + list(gen_c03.generate(lean_dir) or [])
